@@ -15,3 +15,39 @@ pub fn anchor_state() -> (usize, usize, usize) {
 pub fn missing_field_fallback() -> Option<(u64, u64)> {
     crate::de_error::verif_missing_field_fallback()
 }
+
+/// One step of the event pump (`LiveEvents::next_impl`), logged after the step was taken:
+/// the action's name and cheap scalar state (injection-stack height, recording-stack height,
+/// replayed-event counter, stored anchors, events held in open recording frames, error tag).
+#[derive(Clone, Debug, PartialEq, Eq)]
+pub struct PumpStep {
+    pub action: &'static str,
+    pub inject: usize,
+    pub rec: usize,
+    pub replayed: usize,
+    pub anchors: usize,
+    pub held: usize,
+    pub err: &'static str,
+}
+
+thread_local! {
+    static PUMP_TRACE: std::cell::RefCell<Option<Vec<PumpStep>>> = const { std::cell::RefCell::new(None) };
+}
+
+/// Start logging pump steps on this thread (off by default).
+pub fn pump_trace_begin() {
+    PUMP_TRACE.with(|t| *t.borrow_mut() = Some(Vec::new()));
+}
+
+/// Stop logging and return the steps logged since `pump_trace_begin`.
+pub fn pump_trace_end() -> Vec<PumpStep> {
+    PUMP_TRACE.with(|t| t.borrow_mut().take()).unwrap_or_default()
+}
+
+pub(crate) fn pump_step(step: PumpStep) {
+    PUMP_TRACE.with(|t| {
+        if let Some(v) = t.borrow_mut().as_mut() {
+            v.push(step);
+        }
+    });
+}
